@@ -34,6 +34,7 @@ var defs = []event{
 	{"def", "methodvalue", "type T2 struct{ N int }\n\nfunc (t T2) M(a int) int { return t.N + a }\n\nvar t2 = T2{50}\n\nvar mv = t2.M", ""},
 	{"def", "caller", "func wf() int { return f(3) + 1 }", "func"},
 	{"def", "ptrmethod", "type P struct{ N int }\n\nfunc (p *P) Inc() int {\n\tp.N++\n\treturn p.N\n}\n\nvar pp = &P{7}", ""},
+	{"def", "globalvar", "var g = 5\n\nfunc setG(v int) { g = v }", ""},
 	{"def", "hostfunc", "", "func"},       // host obtains a wrapper of f
 	{"def", "hostclosure", "", "closure"}, // host obtains a wrapper of cl
 	{"def", "hostmethodvalue", "", "methodvalue"},
@@ -46,6 +47,11 @@ var uses = []event{
 	{"use", "mv(2)", "mv(2)", "methodvalue"},
 	{"use", "pp.Inc()", "pp.Inc()", "ptrmethod"},
 	{"use", "wf()", "wf()", "caller"},
+	// statements that allocate no new package-level slot (nothing refreshes the global frame), then a read
+	{"use", "setG(10);g", "setG(10) ;; g", "globalvar"},
+	{"use", "g = 7;g", "g = 7 ;; g", "globalvar"},
+	{"use", "g++;g", "g++ ;; g", "globalvar"},
+	{"use", "g", "g", "globalvar"},
 	{"hostuse", "host f(2)", "", "hostfunc"},
 	{"hostuse", "host cl()", "", "hostclosure"},
 	{"hostuse", "host mv(2)", "", "hostmethodvalue"},
@@ -139,7 +145,13 @@ func runHistory(h history, skipCancels bool) (res result) {
 				}
 			}
 		case "use":
-			v, err := i.Eval(e.Src)
+			var v reflect.Value
+			var err error
+			for _, part := range strings.Split(e.Src, " ;; ") {
+				if v, err = i.Eval(part); err != nil {
+					break
+				}
+			}
 			if err != nil {
 				res.Uses = append(res.Uses, e.Name+" -> ERR "+strings.SplitN(err.Error(), "\n", 2)[0])
 			} else {
@@ -352,7 +364,7 @@ func main() {
 	r.Set("distinct_nontrivial", len(res.Sets["obs"]))
 	r.Set("max_history_length", maxLen)
 	r.Set("exhaustive", true)
-	r.Set("rule", "all histories define* ; (use | cancelled-eval)* with <= 3 definitions out of 8 kinds (function, method+var, closure in var, method value, pointer-receiver method, host wrappers of function / closure / method value), uses through Eval and from the host, 5 cancelled-evaluation kinds (busy loops cancelled at operation 30 by the step hook, blocked receive cancelled at the receive and at the first operation), total length <= the bound, containing a use after a cancelled evaluation; states = distinct reference observation vectors")
+	r.Set("rule", "all histories define* ; (use | cancelled-eval)* with <= 3 definitions out of 10 kinds (function, method+var, closure in var, method value, pointer-receiver method, caller, package variable + setter, host wrappers of function / closure / method value), uses through Eval (calls, and statements that allocate no new package-level slot followed by a read) and from the host, 5 cancelled-evaluation kinds (busy loops cancelled at operation 30 by the step hook, blocked receive cancelled at the receive and at the first operation), total length <= the bound, containing a use after a cancelled evaluation; states = distinct reference observation vectors")
 	r.Assumptions = []string{"oracle = the same history without the cancelled evaluations", "the cancelled evaluation's goroutine is allowed to finish before the next event (waits for the goroutine count to settle, not an oracle)"}
 	for _, i := range []int{0, len(hs) / 2, len(hs) - 1} {
 		r.Sample(hs[i].name())
